@@ -154,6 +154,23 @@ def _touches_src(tb):
     return False
 
 
+CODE_ERRORS = (AssertionError, ArithmeticError, LookupError, TypeError, ValueError, AttributeError, OSError,
+               StopIteration, RuntimeError, EOFError)
+
+
+def as_violation(e, case):
+    """An exception raised from inside the code under test on a valid case is a verdict; returns the Violation
+    to raise, or None when the exception did not pass through the source tree (harness error)."""
+    if isinstance(e, Violation):
+        if e.case is None:
+            e.case = case
+        return e
+    if isinstance(e, CODE_ERRORS) and _touches_src(e.__traceback__):
+        tb = traceback.format_exception(type(e), e, e.__traceback__)
+        return Violation(f"code under test raised {type(e).__name__}: {e}", case=case, detail="".join(tb[-6:]))
+    return None
+
+
 def guarded(body, ctx, case):
     """Run an oracle body.  Exceptions raised from inside the code under test on a generated (valid) case
     are verdicts, exceptions raised elsewhere are harness errors and propagate."""
@@ -161,17 +178,13 @@ def guarded(body, ctx, case):
         with warnings.catch_warnings():
             warnings.simplefilter("ignore")
             body(ctx, case)
-    except Violation as v:
-        if v.case is None:
-            v.case = case
-        raise
-    except (AssertionError, ArithmeticError, LookupError, TypeError, ValueError, AttributeError, OSError,
-            StopIteration, RuntimeError, EOFError) as e:
-        if _touches_src(e.__traceback__):
-            tb = traceback.format_exception(type(e), e, e.__traceback__)
-            raise Violation(f"code under test raised {type(e).__name__}: {e}", case=case,
-                            detail="".join(tb[-6:])) from None
-        raise
+    except Exception as e:
+        v = as_violation(e, case)
+        if v is None:
+            raise
+        if v is e:
+            raise
+        raise v from None
 
 
 def _run_shard(args):
